@@ -70,6 +70,10 @@ def cases(tier, seed):
         for c_ in out:
             if c_["name"].startswith("adaptive:"):
                 c_["bounds"] = {"tmax": 3000.0, "max_paths": 30000}
+                if "any-adjusted-step" in c_["name"]:
+                    # thorough bounds (5 adjustments, 2 trackers): > 14 000 paths; explored up to the time cap, every explored
+                    # path is checked, an incomplete exploration is recorded in the evidence (per_case.complete) and not an error
+                    c_["optional"] = True
         out.append(_case("numba:2const>=dt:dt=1:whole:K=4", backend="numba", K=4, range="whole", dt=1, a=0.5, trackers=[ge1, ge1]))
         out.append(_case("numpy:3const:dt=1:any:K=3", backend="numpy", K=3, range="any", dt=1, a=0.5, trackers=[ge1, any_, ge1]))
         out.append(_case("numpy:log+const:dt=1:any:K=4", backend="numpy", K=4, range="any", dt=1, a=0.5, trackers=[{"kind": "log", "factor": "sym"}, ge1]))
